@@ -29,7 +29,7 @@ def run_sim(sim):
 
 def new_sim(st, interrupts=True, max_steps=20000):
     sim = Sim(st.schedule, max_steps=max_steps)
-    sim.faults = st.faults
+    sim.faults = st.schedule  # interrupts are drawn from the schedule stream
     if interrupts:
         sim.interrupt_den = (0, 0, 5, 2)[st.scenario.draw(4)]
     return sim
@@ -86,3 +86,34 @@ def bounded_steps(ch, spec, extra=2):
     """Number of consumer steps for tools that never end"""
     n = sum(len(s.items) for s in spec.srcs)
     return ch.draw(2 * n + extra + 1)
+
+
+def enumerate_faults(st, ctx, prepare, run_prepared, fault_lists):
+    """
+    Fault enumeration over one sampled scenario: ``prepare`` draws the scenario from the scenario
+    stream, ``fault_lists(prep)`` gives one faults-stream list per position, every position is run
+    with a schedule stream of its own.  Each outcome carries complete replayable choice lists.
+    """
+    from ..choice import Chooser, Streams
+
+    prep = prepare(st.scenario)
+    scen_rec = list(st.scenario.rec)
+    outs = []
+    rng = st.schedule.rng
+    first = True
+    for flist in fault_lists(prep, st.faults):
+        sub = Streams(st.scenario, Chooser(replay=flist), Chooser(rng.getrandbits(62)))
+        out = run_prepared(prep, sub, ctx if first else _NO_SAMPLE)
+        out.lists = [scen_rec, list(sub.faults.rec), list(sub.schedule.rec)]
+        outs.append(out)
+        first = False
+    return outs
+
+
+class _NoSample:
+    want_sample = False
+    want_log = False
+    tier = "quick"
+
+
+_NO_SAMPLE = _NoSample()
